@@ -202,3 +202,22 @@ Example C07_source_reader_nonvacuous :
   | _ => False
   end.
 Proof. vm_compute. repeat split; reflexivity. Qed.
+
+(* The same step with u.Source a reader that serves a chunked stream (Translated4Hdr.src_reader: one read1 of
+   lib/Stream.v per call): UTF8Reader.Read IS the model's u8_read — count, error class (the stream's error /
+   ErrInvalidUTF8), remaining stream, DFA state and `accepted` field; p holds the chunk read. *)
+Require Translated4Hdr Translated4Utf8Src.
+Theorem C07_source_reader_read : forall s0 h w p st a0 cp,
+  GoMem.sl_valid w p -> (0 < GoMem.sl_len p <= Translated3Ok.max_int)%Z -> In st Translated3Ok.u8_states ->
+  wf_src (Translated4Hdr.src_at s0 h) -> wf_bytes (flat (Translated4Hdr.src_at s0 h)) ->
+  let u := Translated3.g3_mk_wsutil_UTF8Reader (Translated4Hdr.src_reader s0 h) (Z.of_N a0) st cp in
+  let '((n, b, e), m') := u8_read (Z.to_N (GoMem.sl_len p)) (mkU8 (Translated4Hdr.src_at s0 h) (Z.to_N st) a0) in
+  exists cp',
+    Translated3.g3_wsutil_UTF8Reader_Read u p w =
+    GoSlices.Ok ((Z.of_N n, option_map Translated4Utf8Src.u8err_go e,
+         Translated3.g3_mk_wsutil_UTF8Reader (Translated4Hdr.src_reader s0 (h ++ [GoMem.sl_len p]))
+           (Z.of_N (u_accepted m')) (Z.of_N (u_state m')) cp'),
+        GoMem.sl_blit w p 0%Z (Translated3Ok.zb b))
+    /\ Translated4Hdr.src_at s0 (h ++ [GoMem.sl_len p]) = u_src m'.
+Proof. exact Translated4Utf8Src.g3_UTF8Reader_Read_src. Qed.
+Print Assumptions C07_source_reader_read.
